@@ -308,7 +308,20 @@ func (p *TermPool) Bin(op Op, a, b *Term) *Term {
 		}
 	}
 	// light algebraic simplifications
+	one := math.Float64bits(1.0)
 	switch op {
+	case opFMul:
+		// 1.0 * x == x exactly, for every x (NaN, infinities and signed zeros included)
+		if a.op == opConst && a.cval == one {
+			return b
+		}
+		if b.op == opConst && b.cval == one {
+			return a
+		}
+	case opFDiv:
+		if b.op == opConst && b.cval == one {
+			return a
+		}
 	case opAdd, opBOr, opBXor:
 		if a.op == opConst && a.cval == 0 {
 			return b
